@@ -9,9 +9,15 @@ Python keywords or builtins.  Produces the EXPRESS text and the same schema as l
 Every random choice comes from the `rng` passed in.
 """
 SIMPLE = {"INTEGER": "INTEGER", "REAL": "REAL", "STRING": "STRING", "BINARY": "BINARY", "NUMBER": "NUMBER", "LOGICAL": "LOGICAL"}
-# Python keywords that are legal EXPRESS identifiers, and a few builtins / runtime names
-PY_KEYWORDS = ["class", "pass", "assert", "async", "await", "break", "continue", "def", "del", "elif", "except", "finally",
-               "global", "import", "is", "lambda", "nonlocal", "raise", "try", "yield"]
+# Python keywords that are legal EXPRESS identifiers: taken from Python itself (`keyword.kwlist`, lower-case members: EXPRESS
+# identifiers are folded to lower case) minus the reserved words of EXPRESS among them (checks/c18.py verifies that stepcode's
+# front end refuses exactly these); the historical order first, so that earlier random streams change as little as possible
+import keyword as _keyword
+EXPRESS_RESERVED_PY = ["and", "as", "else", "for", "from", "if", "in", "not", "or", "return", "while"]
+_OLD_ORDER = ["class", "pass", "assert", "async", "await", "break", "continue", "def", "del", "elif", "except", "finally",
+              "global", "import", "is", "lambda", "nonlocal", "raise", "try", "yield"]
+_PY = [k for k in _keyword.kwlist if k == k.lower() and k not in EXPRESS_RESERVED_PY]
+PY_KEYWORDS = [k for k in _OLD_ORDER if k in _PY] + [k for k in _PY if k not in _OLD_ORDER]
 PY_BUILTINS = ["property", "len", "id", "object", "str", "int", "print", "sys", "float", "dict", "none"]
 
 
